@@ -49,7 +49,8 @@ func genScenario(t *rapid.T, kind string) LeaseScenario {
 		case len(s.FailCas) > 0:
 			s.DelayPct = min(s.DelayPct, 5)
 		}
-		s.Acquire = rapid.SampledFrom([]string{"", "", "lockctx", "trylock"}).Draw(t, "acquire")
+		s.Acquire = rapid.SampledFrom([]string{"", "", "lockctx", "trylock", "lockctx-deadline", "trylock-deadline"}).Draw(t, "acquire")
+		s.ErrKind = rapid.IntRange(0, 5).Draw(t, "errKind")
 		s.Blocking = rapid.Bool().Draw(t, "blockingContender")
 		if s.Blocking && rapid.Bool().Draw(t, "contenderFaults") {
 			// the contender makes about one Create per sample (five per lease) plus retries
@@ -74,6 +75,9 @@ func genScenario(t *rapid.T, kind string) LeaseScenario {
 	case "sharedhandoff":
 		s.Wait10 = rapid.IntRange(1, 9).Draw(t, "wait10")
 		s.After = rapid.Bool().Draw(t, "requestDelayed")
+	case "trygate":
+		s.Wait10 = rapid.IntRange(0, 9).Draw(t, "wait10")
+		s.After = rapid.Bool().Draw(t, "lockWithCtx")
 	case "unlockfail":
 		s.Hold10 = rapid.IntRange(0, 14).Draw(t, "hold10")
 		s.Applied = rapid.IntRange(0, 3).Draw(t, "applied") == 0
@@ -92,7 +96,7 @@ func genScenario(t *rapid.T, kind string) LeaseScenario {
 }
 
 func recordLease(s LeaseScenario, info LeaseInfo) {
-	nt := (s.Kind == "hold" && info.InjectedFailures > 0) || s.Kind == "death" || s.Kind == "handoff" || s.Kind == "waithold" || (s.Kind == "bystander" && info.HeldInFlight) || (s.Kind == "unlockrace" && info.HeldInFlight) || (s.Kind == "relock" && info.HeldInFlight) || s.Kind == "unlockfail" || (s.Kind == "multi" && len(s.Unlocks) > 0) || s.Kind == "sharedhandoff"
+	nt := (s.Kind == "hold" && info.InjectedFailures > 0) || s.Kind == "death" || s.Kind == "handoff" || s.Kind == "waithold" || (s.Kind == "bystander" && info.HeldInFlight) || (s.Kind == "unlockrace" && info.HeldInFlight) || (s.Kind == "relock" && info.HeldInFlight) || s.Kind == "unlockfail" || (s.Kind == "multi" && len(s.Unlocks) > 0) || s.Kind == "sharedhandoff" || s.Kind == "trygate"
 	cl := []string{"scenario:" + s.Kind, fmt.Sprintf("lease_ms:%d", s.LeaseMs)}
 	if info.Retried > 0 {
 		cl = append(cl, "confirmed_only_after_retry")
@@ -155,7 +159,7 @@ func TestC05Rapid(t *testing.T) {
 		var batch []LeaseScenario
 		races := 0
 		for i := 0; i < n; i++ {
-			kind := rapid.SampledFrom([]string{"hold", "hold", "hold", "death", "death", "unlockrace", "relock", "unlockfail", "handoff", "handoff", "waithold", "bystander", "sharedhandoff"}).Draw(rt, "kind")
+			kind := rapid.SampledFrom([]string{"hold", "hold", "hold", "death", "death", "unlockrace", "relock", "unlockfail", "handoff", "handoff", "waithold", "bystander", "sharedhandoff", "trygate"}).Draw(rt, "kind")
 			if kind == "unlockrace" || kind == "bystander" || kind == "relock" || kind == "unlockfail" {
 				if races >= 3 { // every such scenario parks one worker of the timer pool for a while
 					kind = "hold"
@@ -201,7 +205,12 @@ func TestC05EveryK(t *testing.T) {
 		batch = append(batch, LeaseScenario{Kind: "unlockfail", LeaseMs: lease, InFlight: inf})
 	}
 	batch = append(batch, LeaseScenario{Kind: "sharedhandoff", LeaseMs: lease, Wait10: 3}, LeaseScenario{Kind: "sharedhandoff", LeaseMs: lease, Wait10: 7, After: true},
-		LeaseScenario{Kind: "hold", LeaseMs: lease, Periods: 7, FailCas: []int{2, 5, 8, 11, 14, 17}})
+		LeaseScenario{Kind: "hold", LeaseMs: lease, Periods: 7, FailCas: []int{2, 5, 8, 11, 14, 17}},
+		LeaseScenario{Kind: "trygate", LeaseMs: lease, Wait10: 2}, LeaseScenario{Kind: "trygate", LeaseMs: lease, Wait10: 6, After: true})
+	for kind := 1; kind <= 5; kind++ {
+		batch = append(batch, LeaseScenario{Kind: "hold", LeaseMs: lease, Periods: 4, FailCas: []int{kind}, ErrKind: kind})
+	}
+	batch = append(batch, LeaseScenario{Kind: "hold", LeaseMs: lease, Periods: 3, Acquire: "trylock-deadline"}, LeaseScenario{Kind: "hold", LeaseMs: lease, Periods: 3, Acquire: "lockctx-deadline"})
 	for _, acq := range []string{"lockctx", "trylock"} {
 		batch = append(batch, LeaseScenario{Kind: "hold", LeaseMs: lease, Periods: 4, Acquire: acq})
 	}
@@ -250,6 +259,8 @@ func TestC01LongWaiter(t *testing.T) {
 	for _, acq := range []string{"lockctx", "trylock"} {
 		batch = append(batch, LeaseScenario{Kind: "hold", LeaseMs: 300, Periods: 3, Acquire: acq, OnlyExcl: true})
 	}
+	batch = append(batch, LeaseScenario{Kind: "hold", LeaseMs: 300, Periods: 3, Acquire: "trylock-deadline", OnlyExcl: true}, LeaseScenario{Kind: "hold", LeaseMs: 300, Periods: 3, Acquire: "lockctx-deadline", OnlyExcl: true},
+		LeaseScenario{Kind: "trygate", LeaseMs: 300, Wait10: 3, OnlyExcl: true}, LeaseScenario{Kind: "trygate", LeaseMs: 300, Wait10: 5, After: true, OnlyExcl: true})
 	batch = append(batch, LeaseScenario{Kind: "sharedhandoff", LeaseMs: 300, Wait10: 2, OnlyExcl: true}, LeaseScenario{Kind: "sharedhandoff", LeaseMs: 300, Wait10: 6, After: true, OnlyExcl: true})
 	batch = append(batch, LeaseScenario{Kind: "hold", LeaseMs: 300, Periods: 3, Blocking: true, FailCreate: []int{1, -3, 6}, OnlyExcl: true})
 	// an ownerless record expires under several waiters: they must take the lock one at a time
